@@ -205,6 +205,10 @@ func registerHarnessAPI(e *Engine) {
 		r.cfg.MapOrderNondet = args[1].(*Term).K != 0
 		return nil
 	})
+	m("BackgroundLowPriority", func(fr *frame, args []value) value {
+		hRun(args).cfg.BgLowPrio = args[1].(*Term).K != 0
+		return nil
+	})
 	m("Stub", func(fr *frame, args []value) value {
 		r := hRun(args)
 		f := args[2]
